@@ -30,6 +30,21 @@ CHECKS = {
  "C07": dict(tech="reference-model monitor (M-LR1 + recovery rule of the statement) over full event logs incl. error attributes; token-conservation check",
    text="Exploration: grammars with error-first alternatives (clean and -a) are driven with valid, singly and multiply erroneous inputs; log (scans, calls, error attributes with offending token and discarded attributes, result/error) must equal the reference; no panic, no budget abort; inputs valid for the grammar without error alternatives must parse without any error attribute.",
    note="ExpectedTokens of recovered errors is not judged (unstated).", ref="4/C07"),
+ "C04": dict(tech="reference-model monitor (M-LR1 classification) over exit status and conflict line of real gocc runs",
+   text="Exploration: random, template and near-boundary grammars are run through the real gocc with and without -a; exit status and the presence of the 'LR-1 conflicts' line must match the canonical LR(1) classification (conflict-free / conflicting / accept-reduce) built independently.",
+   note="The conflict count N is recorded, not judged; 'error' is treated as an ordinary terminal.", ref="4/C04"),
+ "C11": dict(tech="repeated-execution monitor: sha256 of generated files, exit status and conflict line over K fresh gocc processes per (grammar, flags), GOMAXPROCS varied",
+   text="Exploration: each (grammar, flag set) is generated K times by fresh processes (fresh map-iteration seeds) into the same directory; all generated .go files, exit status and conflict line must be identical.",
+   note="gocc starts no goroutines: schedule nondeterminism reduces to map-order draws and GOMAXPROCS.", ref="4/C11"),
+ "C13": dict(tech="differential monitor over generated bytes for two renderings of one grammar IR (layout, literal spelling, quoting)",
+   text="Exploration: one IR is rendered canonically and with random layout / literal spellings / quoting, both are generated into identically named directories with the same package path; outputs must be byte-identical.",
+   note="The renderer varies only what C13 lists; action text and header untouched.", ref="4/C13"),
+ "C14": dict(tech="reference-model monitor (M-SPEC = spec/gocc2.ebnf via own reader + Earley) over gocc exit status on token-level and semantic mutants",
+   text="Exploration: well-formed grammars are mutated at the front-end token level and by the listed semantic faults; every mutant that is not a sentence of the documented grammar, or carries a listed fault, must make gocc exit non-zero.",
+   note="Token types as the scanner assigns them; still-well-formed mutants are run but not judged.", ref="4/C14"),
+ "C19": dict(tech="differential monitor (x.md vs extracted x.bnf bytes) plus diagnostic-position oracle computed by the generator",
+   text="Exploration: grammars are laid out in fenced blocks between hostile prose; generated bytes must equal those for the extracted fenced text, and an injected stray token must be diagnosed at its line:column in the .md file.",
+   note="Fences on their own lines, valid UTF-8, no ``` inside prose or code (the property's stated domain).", ref="4/C19"),
 }
 
 NOT_YET = "check not built yet in this tree (work in progress; see DESIGN.md section 4 for the planned monitor)"
